@@ -30,3 +30,16 @@ void h_strided_copy_elem(void)
   VERIF_REACH();
 }
 #endif
+
+#if COPY_LAYER == 3
+void h_hilbert_copy_elem(void)
+{
+  ND_SIZE_T in_sizes = nondet_nd(), in_t = nondet_nd();
+  copy_ghosts(in_t);
+  __CPROVER_assume(H_SIZES_OK(in_sizes) && in_t.m_data[0] < in_sizes.m_data[0] && in_t.m_data[1] < in_sizes.m_data[1]);
+  IN_VEC_T c; c.m_data[0] = in_t.m_data[0]; c.m_data[1] = in_t.m_data[1];
+  verif_expected_idx = hilbert_calculate_index(c, in_sizes);   /* the same index function the lookup uses */
+  hilbert_copy_elem(0, in_sizes, in_t);
+  VERIF_REACH();
+}
+#endif
